@@ -423,6 +423,8 @@ def configs(tier, seed):
                         'group': 'shell-repeated-evaluation:%s' % model, 'first': '-', 'redef': 'none', 'last': '_calc_linear_matrices', 'timeout_ms': 180000})
     for tag, red in (('other-radius-and-length', ({'r2': 'r2_before', 'L': 'L_before'}, {'r2': 'r2', 'L': 'L'})), ('cylinder-to-cone', ({'alphadeg': 0.}, {'alphadeg': 'alphadeg'})),
                      ('other-thickness', ({'plyt': 'plyt_before'}, {'plyt': 'plyt', 'plyts': 'EMPTY'})),
+                     ('prescribed-rotation-set-later', ({'thetaTdeg': 0., 'uTM': 0.}, {'thetaTdeg': 'thetaTdeg'})),
+                     ('axial-load-removed', ({'Fc': 'Fc_before'}, {'Fc': 0.})),
                      ('other-ply-thickness-list', ({'plyts': ['plyt_before']}, {'plyts': ['plyt']})),
                      ('other-ply-material-list', ({'laminaprops': [('E_before', 'E_before', 0.3)]}, {'laminaprops': [('E_now', 'E_now', 0.3)]}))):
         out.append({'shell_history': True, 'model': 'clpt_donnell_bc1', 'mn': (2, 2, 1), 's': 1, 'cone': True, 'redefine': red, 'm': 2, 'n': 1, 'variant': 'shell-calc_k0-after-redefinition',
